@@ -20,7 +20,7 @@ func indexPath(p *Path) *pathIndex {
 	for _, e := range p.Events {
 		ix.wirePos[e] = n
 		ix.byID[e.ID] = e
-		if isWireEvent(e) && !(e.Kind == EvAlt && !altHasWire(e)) && !(e.Kind == EvBufOther && observerMethods[e.Mode]) {
+		if countsAsWire(e) {
 			n++
 		}
 	}
